@@ -54,8 +54,9 @@ func (c *Core) SetGRPC(b *plugin.GRPCBroker) {
 	c.grpc = b
 	c.mu.Unlock()
 }
+
 // Minted is the number of server objects created so far (one per Plugin.Server / GRPCServer call).
-func (c *Core) Minted() int64 { return c.serial.Load() }
+func (c *Core) Minted() int64            { return c.serial.Load() }
 func (c *Core) Mux() *plugin.MuxBroker   { c.mu.Lock(); defer c.mu.Unlock(); return c.mux }
 func (c *Core) GRPC() *plugin.GRPCBroker { c.mu.Lock(); defer c.mu.Unlock(); return c.grpc }
 
